@@ -542,6 +542,35 @@ func Files() []FileSpec {
 			m.field("oc", 7, Opt, kindByName("enum"), fopt{typeName: "@p2.Color", oneof: oi})
 			m.field("om", 8, Opt, kindByName("message"), fopt{typeName: "@p2.ReqChild", oneof: oi})
 		}})
+	// field numbers of 2^28 and above (five-byte keys; number << 3 no longer fits 31 bits) in EVERY shape, not only singular
+	// scalars: lists of strings / bytes / unpacked varints / zig-zags / messages, packed lists, maps, oneof members
+	for _, syn := range []string{"proto3", "proto2"} {
+		syn := syn
+		name := map[string]string{"proto3": "p3big", "proto2": "p2big"}[syn]
+		out = append(out, FileSpec{Name: name, Syntax: syn, Cells: syn + ": field numbers >= 2^28 in repeated, packed, unpacked, map, oneof and message positions",
+			build: func(b *fb) {
+				const base = 1 << 28
+				m := b.msg("Big")
+				m.field("s", base, Opt, kindByName("string"), fopt{})
+				m.field("u", base+1, Opt, kindByName("uint32"), fopt{})
+				m.field("z", base+2, Opt, kindByName("sint64"), fopt{})
+				m.field("f", base+3, Opt, kindByName("fixed32"), fopt{})
+				m.field("child", base+4, Opt, kindByName("message"), fopt{typeName: "Big"})
+				m.field("rs", base+5, Rep, kindByName("string"), fopt{})
+				m.field("rb", base+6, Rep, kindByName("bytes"), fopt{})
+				m.field("ru", base+7, Rep, kindByName("uint32"), fopt{packed: tr(false)})
+				m.field("rz", base+8, Rep, kindByName("sint32"), fopt{packed: tr(false)})
+				m.field("rm", base+9, Rep, kindByName("message"), fopt{typeName: "Big"})
+				m.field("pi", base+10, Rep, kindByName("int32"), fopt{packed: tr(true)})
+				m.field("pf", base+11, Rep, kindByName("fixed64"), fopt{packed: tr(true)})
+				m.mapField("ms", base+12, kindByName("string"), kindByName("string"), "")
+				m.mapField("mm", base+13, kindByName("int32"), kindByName("message"), "Big")
+				oi := m.oneofDecl("pick")
+				m.field("os", 1<<29-3, Opt, kindByName("string"), fopt{oneof: oi})
+				m.field("om", 1<<29-2, Opt, kindByName("message"), fopt{typeName: "Big", oneof: oi})
+				m.field("last", 1<<29-1, Rep, kindByName("bool"), fopt{packed: tr(false)})
+			}})
+	}
 	// "import public": app -> api -(public)-> types. The app file uses types of a file it does not import itself, and that
 	// file's Go package name differs from the last element of its import path (go_package "path;name").
 	out = append(out, FileSpec{Name: "p3pubt", Syntax: "proto3", GoName: "pubtypes", Cells: "proto3: types re-exported through a public import; Go package name differs from the directory name",
